@@ -869,7 +869,7 @@ start_glib_boxed (GMarkupParseContext *context,
   ((GIrNode *)boxed)->name = g_strdup (name);
   boxed->gtype_name = g_strdup (typename);
   boxed->gtype_init = g_strdup (typeinit);
-  if (deprecated)
+  if (deprecated && strcmp (deprecated, "1") == 0)
     boxed->deprecated = TRUE;
   else
     boxed->deprecated = FALSE;
@@ -966,7 +966,7 @@ start_function (GMarkupParseContext *context,
   ((GIrNode *)function)->name = g_strdup (name);
   function->symbol = g_strdup (symbol);
   function->parameters = NULL;
-  if (deprecated)
+  if (deprecated && strcmp (deprecated, "1") == 0)
     function->deprecated = TRUE;
   else
     function->deprecated = FALSE;
@@ -1588,7 +1588,7 @@ start_enum (GMarkupParseContext *context,
   enum_->gtype_init = g_strdup (typeinit);
   enum_->error_domain = g_strdup (error_domain);
 
-  if (deprecated)
+  if (deprecated && strcmp (deprecated, "1") == 0)
     enum_->deprecated = TRUE;
   else
     enum_->deprecated = FALSE;
@@ -1746,7 +1746,7 @@ start_member (GMarkupParseContext *context,
 
   value_->value = parse_value (value);
 
-  if (deprecated)
+  if (deprecated && strcmp (deprecated, "1") == 0)
     value_->deprecated = TRUE;
   else
     value_->deprecated = FALSE;
@@ -1825,7 +1825,7 @@ start_constant (GMarkupParseContext *context,
 
   ctx->current_typed = (GIrNode*) constant;
 
-  if (deprecated)
+  if (deprecated && strcmp (deprecated, "1") == 0)
     constant->deprecated = TRUE;
   else
     constant->deprecated = FALSE;
@@ -1897,7 +1897,7 @@ start_interface (GMarkupParseContext *context,
   iface->gtype_name = g_strdup (typename);
   iface->gtype_init = g_strdup (typeinit);
   iface->glib_type_struct = g_strdup (glib_type_struct);
-  if (deprecated)
+  if (deprecated && strcmp (deprecated, "1") == 0)
     iface->deprecated = TRUE;
   else
     iface->deprecated = FALSE;
@@ -1976,7 +1976,7 @@ start_class (GMarkupParseContext *context,
   iface->gtype_init = g_strdup (typeinit);
   iface->parent = g_strdup (parent);
   iface->glib_type_struct = g_strdup (glib_type_struct);
-  if (deprecated)
+  if (deprecated && strcmp (deprecated, "1") == 0)
     iface->deprecated = TRUE;
   else
     iface->deprecated = FALSE;
@@ -1984,7 +1984,7 @@ start_class (GMarkupParseContext *context,
   iface->abstract = abstract && strcmp (abstract, "1") == 0;
   iface->final_ = final && strcmp (final, "1") == 0;
 
-  if (fundamental)
+  if (fundamental && strcmp (fundamental, "1") == 0)
     iface->fundamental = TRUE;
   if (ref_func)
     iface->ref_func = g_strdup (ref_func);
@@ -2711,7 +2711,7 @@ start_struct (GMarkupParseContext *context,
 					     ctx->current_module);
 
   ((GIrNode *)struct_)->name = g_strdup (name ? name : "");
-  if (deprecated)
+  if (deprecated && strcmp (deprecated, "1") == 0)
     struct_->deprecated = TRUE;
   else
     struct_->deprecated = FALSE;
@@ -2789,7 +2789,7 @@ start_union (GMarkupParseContext *context,
   union_->gtype_init = g_strdup (typeinit);
   union_->copy_func = g_strdup (copy_func);
   union_->free_func = g_strdup (free_func);
-  if (deprecated)
+  if (deprecated && strcmp (deprecated, "1") == 0)
     union_->deprecated = TRUE;
   else
     union_->deprecated = FALSE;
